@@ -28,7 +28,11 @@ def ensure_runtime():
 
 
 def jstr(s):
-    return 'S("%s")' % s.encode('utf-8').hex()
+    h = s.encode('utf-8').hex()
+    if len(h) <= 30000:
+        return 'S("%s")' % h
+    # a Java string constant is limited to 65535 bytes: join chunks at run time
+    return 'S(String.join("", %s))' % ', '.join('"%s"' % h[i:i + 30000] for i in range(0, len(h), 30000))
 
 
 def jint(v, ntype):
@@ -311,7 +315,7 @@ class Batch:
             for f in fs:
                 owner[os.path.abspath(f)] = t
         live = dict(groups)
-        for _ in range(8):
+        for _ in range(40):
             allf = [f for fs in live.values() for f in fs]
             shutil.rmtree(outdir, ignore_errors=True)
             os.makedirs(outdir, exist_ok=True)
